@@ -1,6 +1,7 @@
 import GoBatcher.Driver.Admit
 import GoBatcher.Driver.Cycle
 import GoBatcher.Driver.Buffer
+import GoBatcher.Driver.BufLinked
 import GoBatcher.Driver.HistMon
 import GoBatcher.Driver.Setters
 import GoBatcher.Driver.LeaseMgr
@@ -21,6 +22,7 @@ def handle (line : String) : Option (Option String × List (String × String)) :
   if line.startsWith "admit " then some (checkAdmit inp obs)
   else if line.startsWith "cycle " then some (checkCycle inp obs)
   else if line.startsWith "buffer " then some (checkBuffer inp obs)
+  else if line.startsWith "buflinked " then some (checkBufLinked inp obs)
   else if line.startsWith "hist " then some (checkHist inp obs)
   else if line.startsWith "setters " then some (checkSetters inp obs)
   else if line.startsWith "leasemgr " then some (checkLeaseMgr inp obs)
